@@ -1,33 +1,20 @@
 """C11 Dynamic sample keys depend only on the trace's distinct field values."""
-import os
-import sys
-
-
-def _tier():
-    # lib/stages.stage_walk cannot skip a walk stage whose cfg is None for a tier (stage_tlc can),
-    # so the thorough-only 3-span stage is left out of the list in the quick tier here.
-    t = os.environ.get("VERIF_TIER", "quick")
-    for i, a in enumerate(sys.argv):
-        if a == "--tier" and i + 1 < len(sys.argv):
-            t = sys.argv[i + 1]
-        elif a.startswith("--tier="):
-            t = a.split("=", 1)[1]
-        elif a == "--replay" and i + 1 < len(sys.argv) and "-TraceKeyDeep-" in sys.argv[i + 1]:
-            return "thorough"
-    return t
-
-
+# thorough-only stages (3 spans)
 _DEEP = [dict(kind="walk", name="TraceKeyDeep", module="TraceKey", pkg="sample", test="TestVerifC11TraceKey",
               harness=["sample/c11_tracekey_test.go"],
               cfg={"quick": "MC_TraceKey_deep.cfg", "thorough": "MC_TraceKey_deep.cfg"},
-              budget={"quick": 300, "thorough": 300}, maxwalk=4)] if _tier() == "thorough" else []
+              budget={"quick": 300, "thorough": 300}, maxwalk=4, tiers=("thorough",)),
+         dict(kind="walk", name="TraceKeyDeep1", module="TraceKey", pkg="sample", test="TestVerifC11TraceKey",
+              harness=["sample/c11_tracekey_test.go"],
+              cfg={"quick": "MC_TraceKey_deep1.cfg", "thorough": "MC_TraceKey_deep1.cfg"},
+              budget={"quick": 300, "thorough": 300}, maxwalk=4, tiers=("thorough",))]
 
 PROP = dict(
     level="model_checking",
     technique="TLA+ spec TraceKey.tla: abstract key AKey(cfg, trace) = per-field value sets + root-only values + span count; TLC enumerates every small trace (all span orders, duplications, splits of values over spans, unconfigured fields) with its normal form NF = a trace rebuilt from the abstract key alone, and every pair of different separable classes; each vector is concretised as real types.Trace objects and evaluated by the five dynsampler-backed samplers' GetSampleRate (B3 function vectors)",
     design_ref="DESIGN.md §5 C11",
     level_text="TLC checks on the model that the abstract key is invariant under every span permutation, under span duplication exactly when UseTraceLength is off, and under any change of unconfigured fields or of root-only fields outside the root span, and that the normal form is a sound class representative. Binding: for every enumerated (field list, UseTraceLength, trace) the real key returned by DynamicSampler, EMADynamicSampler, EMAThroughputSampler, WindowedThroughputSampler and TotalThroughputSampler.GetSampleRate for the trace (built with extra unconfigured fields and partly msgpack-backed payloads, samplers created by SamplerFactory.createSampler and reused across vectors) must equal the key of the class's normal form, so all enumerated traces of one abstract class get one key; for every pair of different classes with all fields present the two keys must differ; every returned rate must be >= 1 and repeated calls must return the same key. A separate stage checks the keep frequency against the reported rate (6-sigma band).",
-    level_note="Bounded enumeration: quick = 2 fields, 3 typed values string/int/bool, <= 2 spans, field lists [a,b], [a,root.b], [a,root.a], about 7k vectors; thorough = (2 fields, 4 values incl. a float and one value containing the ',' delimiter - excluded from the separation clause as the property says -, <= 2 spans, all 7 field lists) + (2 fields, 3 values, <= 3 spans, [a,b]), about 73k vectors; each with and without UseTraceLength. Values of different type with the same rendering (1 vs \"1\") are not in the domain. The 100-distinct-values cap is only approached by the gotest stage (order/duplication invariance with 41, 98 and 99 distinct values, seeded shuffles; oracle: the same AKey relation). Rates other than the samplers' initial ones appear only if a dynsampler interval elapses during the run. Oracle of the keep-frequency check: kept/calls per reported rate within 6 sigma (+8) of 1/rate, exact for rate 1; it depends on math/rand's global source.",
+    level_note="Bounded enumeration: quick = 2 fields, 3 typed values string/int/bool, <= 2 spans, field lists [a,b], [a,root.b], [a,root.a], about 7k vectors; thorough = (2 fields, 3 values string/float/string-with-',' - the delimiter value is excluded from the separation clause as the property says -, <= 2 spans, all 7 field lists) + (2 fields, 2 values, <= 3 spans, [a,b], [a,root.b], [a,b,root.a]) + (1 field, 3 values, <= 3 spans, [a], [a,root.a], [root.a]), about 40k vectors; each with and without UseTraceLength. Values of different type with the same rendering (1 vs \"1\") are not in the domain. The 100-distinct-values cap is only approached by the gotest stage (order/duplication invariance with 41, 98 and 99 distinct values, seeded shuffles; oracle: the same AKey relation). Rates other than the samplers' initial ones appear only if a dynsampler interval elapses during the run. Oracle of the keep-frequency check: kept/calls per reported rate within 6 sigma (+8) of 1/rate, exact for rate 1; it depends on math/rand's global source.",
     assumptions=["dynsampler-go returns rates independent of the key text", "vmihailenco/msgpack encodes the test payloads faithfully",
                  "bounded: <= 2 fields, 3-4 values, <= 3 spans"],
     stages=[
